@@ -303,8 +303,8 @@ def check_index(ctx, case):
             exp = [a.content[T - 1 - t] for t in range(T)]
             req = {'method': 'reverse'}
         elif m == 'thin':
-            res = a.thin(args['spacing'], args['offset'])
             exp = [a.content[t] if (args['offset'] + t) % args['spacing'] == 0 else None for t in range(T)]
+            res = a.thin(args['spacing'], args['offset'])
             req = {'method': 'thin', 'spacing': args['spacing'], 'offset': args['offset']}
         elif m in ('symmetric', 'anti_symmetric'):
             sg = 1 if m == 'symmetric' else -1
